@@ -329,3 +329,23 @@ PROPS["C20"] = {
          "preempts": {"quick": 2, "thorough": 3}, "params": {"quick": {"CALLERS": 2, "protoMax": 1, "protoFixed": 1}, "thorough": {"CALLERS": 3, "protoMax": 1, "protoFixed": 1}}},
     ],
 }
+
+EST_STUBS = {"(*github.com/tsuna/gohbase.client).lookupRegion": "github.com/tsuna/gohbase.vLookupRegion"}
+EST_FILES = ["root/fakes.go", "root/c08_cache.go", "root/c01_routing.go", "root/c09_establish.go"]
+EST_CUTS = [{"file": "rpc.go", "from": "func (c *client) lookupRegion(", "to": "func (c *client) lookupRegionOrig("}]
+
+PROPS["C09"] = {
+    "files": EST_FILES, "native_files": ["root/c09_establish_native.go"], "native_cuts": EST_CUTS,
+    "claim": "One outage of a cached region handled by the real establishRegion against a scripted cluster: for every script of up to "
+             "FAULTS misbehaviours (meta: table gone / region replaced by a newer one; dial failure; probe answered not-serving, "
+             "server-error or retry-later) followed by a stable cluster, with or without a known address: no panic (in particular no "
+             "second MarkAvailable = close of nil channel), the establisher terminates, the region's waiters are released, no live "
+             "cached region is left unavailable or without a connection, no goroutine is left.",
+    "outside": "DATA RACES (not decidable by this technique: the engine assumes sequential consistency between synchronisation "
+               "points); more than FAULTS faults per outage; more than two concurrent callers; real meta scans (lookupRegion is cut)",
+    "assumptions": ["(*client).lookupRegion is cut (scripted hbase:meta / ZooKeeper)", "fake region clients; sleepAndIncreaseBackoff via the repository's own override hook"],
+    "jobs": [
+        {"name": "establish", "pkg": "root", "entry": "VerifEstablish", "stubs": EST_STUBS, "reach": ["re-established", "replaced-or-gone"],
+         "params": {"quick": {"FAULTS": 2}, "thorough": {"FAULTS": 3}}},
+    ],
+}
